@@ -28,6 +28,9 @@ struct RecTap {
     log: Mutex<Log>,
     /// the k-th and later consultations of the clock answer "passed"
     expire_at: Option<usize>,
+    /// explicit answers per consultation (a clock observed from several threads: any subset of the frame / trial checks
+    /// can be the ones that see it expired); consultations beyond the mask answer "not passed"
+    expire_mask: Option<Vec<bool>>,
     /// forced schedule: (eval, nth, filter, is_publish) -> time slot; a trial sleeps until
     /// start + slot * SLOT before the corresponding shared-state access
     slots: Option<std::collections::HashMap<(usize, usize, u8, bool), u64>>,
@@ -65,7 +68,10 @@ impl Tap for RecTap {
         let mut l = self.log.lock().unwrap();
         let n = l.deadline_calls;
         l.deadline_calls += 1;
-        let ans = self.expire_at.map(|k| n >= k);
+        let ans = match &self.expire_mask {
+            Some(m) => Some(m.get(n).copied().unwrap_or(false)),
+            None => self.expire_at.map(|k| n >= k),
+        };
         if std::thread::current().id() == self.main_thread {
             l.main_answers.push(if ans == Some(true) { '1' } else { '0' });
         }
@@ -122,6 +128,10 @@ fn with_log<T>(expire_at: Option<usize>, f: impl FnOnce() -> T) -> (T, String) {
     with_log_sched(expire_at, None, f)
 }
 
+thread_local! {
+    static MASK: std::cell::RefCell<Option<Vec<bool>>> = std::cell::RefCell::new(None);
+}
+
 fn with_log_sched<T>(
     expire_at: Option<usize>,
     slots: Option<std::collections::HashMap<(usize, usize, u8, bool), u64>>,
@@ -130,6 +140,7 @@ fn with_log_sched<T>(
     let tap = Arc::new(RecTap {
         log: Mutex::new(Log::default()),
         expire_at,
+        expire_mask: MASK.with(|m| m.borrow_mut().take()),
         slots,
         start: std::time::Instant::now(),
         order: Mutex::new(Vec::new()),
@@ -309,7 +320,15 @@ fn run(t: &[&str]) -> String {
         // optlog <opts> <expire|-> <filehex>: optimize_from_memory with oracle records
         "optlog" => {
             let o = parse_opts(t[1]);
-            let exp = if t[2] == "-" { None } else { Some(t[2].parse().unwrap()) };
+            // "-" no clock override, "<k>" expiry first seen at the k-th consultation, "m<bits>" explicit answers
+            let exp = if t[2] == "-" {
+                None
+            } else if let Some(bits) = t[2].strip_prefix('m') {
+                MASK.with(|m| *m.borrow_mut() = Some(bits.chars().map(|c| c == '1').collect()));
+                None
+            } else {
+                Some(t[2].parse().unwrap())
+            };
             let data = unhex(t[3]);
             let (r, rec) = with_log(exp, || oxipng::optimize_from_memory(&data, &o));
             match r {
